@@ -1353,7 +1353,8 @@ class ForAll(BinaryOperator):
     @property
     @lru_cache(maxsize=None)
     def condition_unique_variable_ids(self) -> List[int]:
-        return [v.id_ for v in self.condition._unique_variables_.difference(self.left._unique_variables_)]
+        return [v.id_ for v in self.condition._unique_variables_.difference(self.left._unique_variables_)
+                if not isinstance(v.value, Literal)]
 
     def _evaluate__(self, sources: Optional[Dict[int, HashedValue]] = None,
                     yield_when_false: bool = False) -> Iterable[Dict[int, HashedValue]]:
